@@ -123,6 +123,7 @@ type pathCtx struct {
 	observed   []string
 	unknowns   int
 	unwind     int
+	unwindCut  bool // exceeding the unwinding bound prunes the path (declared bound) instead of failing it
 	allocLimit int64
 	mapOrderAll bool
 	preempt    int // remaining preemptions
@@ -620,7 +621,7 @@ func (e *Engine) Explore(cfg HarnessConfig) *HarnessResult {
 	}
 	workers := make([]*worker, nw)
 	for wi := 0; wi < nw; wi++ {
-		s, err := smt.NewSolver(e.SolverKind, e.QueryTimeoutMs)
+		s, err := acquireSolver(e.SolverKind, e.QueryTimeoutMs)
 		if err != nil {
 			panic(err)
 		}
@@ -714,7 +715,7 @@ func (e *Engine) Explore(cfg HarnessConfig) *HarnessResult {
 		if w.solver.Errors > 0 {
 			res.Notes["solver error: "+w.solver.LastErr]++
 		}
-		w.solver.Close()
+		releaseSolver(w.solver)
 	}
 	res.Wall = time.Since(t0)
 	sort.Slice(res.Violations, func(i, j int) bool { return res.Violations[i].Label < res.Violations[j].Label })
